@@ -53,10 +53,10 @@ CLAIMED = {
          "For 6e3/1e5 generated specs in two separately judged strata (identifier-like and hostile node names), tools.Analyze is compared with a reference graph analysis and the outputs of tools.Dot and tools.Mermaid are tokenised the way Graphviz / Mermaid read them and their node and edge multisets compared with the spec graph; panics and errors are violations.",
          "DOT / Mermaid subsets as emitted by the tools; an empty target may or may not also be listed as missing.", "DESIGN.md §4 C20"),
  "C15": ("fault_enumeration", "shadow store folded from reported changes + restart differential at every message boundary",
-         "For 1.2e3/2e4 histories of crew operations (create / replace state / replace spec / uncompilable spec / delete / re-create, via captain messages and direct calls) interleaved with messages, a store folded from Result.Changed exactly like sio/stdio.go must equal the live crew after every message, and a crew booted from the JSON-round-tripped store at every message boundary (crash points enumerated) must give the same emissions and machine states for the rest of the history.",
+         "For 1.2e3/2e4 histories of crew operations (create / replace state / replace spec / uncompilable spec / delete / re-create, via captain messages and direct calls) interleaved with messages, a store folded from Result.Changed exactly like sio/stdio.go must equal the live crew after every message, and a crew booted from the JSON-round-tripped store at every message boundary (crash points enumerated) must give the same emissions and machine states for the rest of the history; end to end, 60/800 histories are typed into a crew wired like sio/siostd (real Stdio coupling and JSON state file): the state file must equal the live crew and a crew started from the file written after a prefix must end and emit like the uninterrupted one.",
          "Machines' reactions commute; captain and timers service machines are not compared; a missing stored state is the boot default.", "DESIGN.md §4 C15"),
  "C14": ("exploration", "recorder machines + routing reference model replayed against reported emissions",
-         "For 3e3/5e4 crews of 0-6 recorder machines and histories whose messages script up to 3 generations of routed and unrouted follow-ups (targets: absent, id, unknown id, '*', lists with unknown / repeated / non-string members, service names; hostile crew-op and timer payloads), the model replays Result.Emitted breadth-first and predicts every machine's log as a sequence; service machines must act only on what is addressed to them. The same recorders hosted in mcrew's Service (in-package): after quiescence each machine's log and the Emitted / Processing / websocket channels must equal the model's multisets.",
+         "For 3e3/5e4 crews of 0-6 recorder machines and histories whose messages script up to 3 generations of routed and unrouted follow-ups (targets: absent, id, unknown id, '*', lists with unknown / repeated / non-string members, service names; hostile crew-op and timer payloads), the model replays Result.Emitted breadth-first and predicts every machine's log as a sequence; service machines must act only on what is addressed to them. The same recorders hosted in mcrew's Service (in-package, asynchronous re-injection): after quiescence each machine's log and the Emitted / Processing / websocket channels must equal the model's multisets; and in mdb's Host (in-package), with the harness playing the debugger's queue-and-pop loop.",
          "Numbers / objects as routing targets are recorded, not judged; batches of one round are matched as a multiset.", "DESIGN.md §4 C14"),
  "C17": ("exploration", "online trace monitor on timer events + pending-set comparator + restart twin, under the Go race detector",
          "mcrew Timers (in-package, the harness is the emitter and issues requests from inside the firing handler) and sio timers (through a real Crew whose input the harness owns; firing observed as delivery to a sink machine; results serialised by a consumer goroutine): per timer fired at most once, never early, never after an acknowledged cancel that preceded its due time; ids reusable from the firing handler; re-created timers cancellable; at quiescent points reported and live pending sets equal accepted - fired - cancelled; timers persisted as JSON resume exactly once on a new crew; zero race reports.",
